@@ -3,6 +3,7 @@ package main
 import (
 	"fmt"
 	"go/types"
+	"path/filepath"
 	"sort"
 	"strconv"
 	"strings"
@@ -525,6 +526,15 @@ func (e *Engine) verifapi(fr *frame, fn *ssa.Function, a []Value) Value {
 		return nil
 	case "Twin":
 		return e.twin
+	case "SetFile":
+		if e.vfs == nil {
+			e.vfs = map[string]string{}
+		}
+		e.vfs[filepath.Clean(a[0].(string))] = e.cs(a[1])
+		return nil
+	case "VfsOnly":
+		e.vfsOnlyPrefixes = append(e.vfsOnlyPrefixes, filepath.Clean(a[0].(string)))
+		return nil
 	}
 	panic(pathEnd{kind: "unsupported", msg: "verifapi." + fn.Name()})
 }
